@@ -133,6 +133,16 @@ PruneRadius(C, R, U, i) ==
 Linked(C, R, U, i, j) ==
     2 * DistM(C[i], C[j]) < 2 * (PruneRadius(C, R, U, i) + PruneRadius(C, R, U, j)) + ThetaMax
 
+(* a scenario is CRITICAL for the pruning when a patch pair that holds in-scale pairs is linked
+   only because the radii of BOTH catalogs are taken into account *)
+LinkedWithRadiiOf(C, cat, i, j) ==
+    2 * DistM(C[i], C[j]) < 2 * (Radius(C, cat, i) + Radius(C, cat, j)) + ThetaMaxIdeal
+Critical(C, R, U) ==
+    \E i \in 1..Len(C), j \in 1..Len(C) :
+        /\ i # j
+        /\ \E s \in 1..NS, b \in Bins : Count(C, R, U, s, b, i, j) > 0
+        /\ (~LinkedWithRadiiOf(C, R, i, j) \/ ~LinkedWithRadiiOf(C, U, i, j))
+
 Measured(C, R, U, s, b, i, j) == IF Linked(C, R, U, i, j) THEN Count(C, R, U, s, b, i, j) ELSE 0
 
 ---------------------------------------------------------------------------
@@ -219,6 +229,7 @@ Expected ==
                     IF i <= j THEN CountAuto(Centres, ref, s, b, i, j) ELSE 0]]]],
       binw |-> [b \in Bins |-> [i \in Patches |-> SumW1(Centres, ref, b, i)]],
       bydist |-> [b \in Bins |-> [i \in Patches |-> [j \in Patches |-> [d \in 1..MaxD |-> CountD(Centres, ref, unk, b, i, j, d)]]]],
+      critical |-> Critical(Centres, ref, unk),
       lost |-> \E s \in 1..NS, b \in Bins, i \in Patches, j \in Patches :
                   ~Linked(Centres, ref, unk, i, j) /\ Count(Centres, ref, unk, s, b, i, j) > 0 ]
 
